@@ -198,6 +198,12 @@ def split_problem(ops, W, nfiles):
             files[fi]["goal_num"].append(g)
             need(fi, g[2][2])
     for F in files:
+        # a file may state the same goal twice (the union still holds it once)
+        if F["goal_num"] and ops.draw(3) == 0:
+            F["goal_num"].append(F["goal_num"][ops.draw(len(F["goal_num"]))])
+        if F["goal"] and ops.draw(4) == 0:
+            F["goal"].append(F["goal"][ops.draw(len(F["goal"]))])
+    for F in files:
         F["objects"] = {o: P["objects"][o] for o in P["objects"] if o in F["objects"]}
     return files
 
@@ -525,7 +531,7 @@ def run(ctx):
             g = ("cmp", ops.pick(["<=", ">="]), ("fn", k[0], list(k[1:])), c)
             if all(repr(g) != repr(x) for x in goal_num):
                 goal_num.append(g)
-    share = cfg.chance(1, 6) and len(goal_num) > 0 and nfiles > 1
+    share = cfg.chance(1, 3) and len(goal_num) > 0 and nfiles > 1
     if share:
         ctx.profile = "shared-numeric-goal"
     W.P = dict(W.P, goal_num=goal_num, share_numeric_goals=share)
